@@ -178,7 +178,10 @@ Lemma lgrant_le x o l : lrate x l <> 0 ->
 Proof. intros Hr. destruct o; cbn [lgrant]; try lia. apply tick_grant. exact Hr. Qed.
 
 
-(* non-vacuity: a limited root with a 5000 B/s slave, four ticks, then demand on the slave list *)
+(* non-vacuity: a limited root with a 5000 B/s slave, four ticks, then demand on the slave list.
+   (Efficiency note, see gen/c12.py HAND: while a slave list is still filling its own two-tick reserve,
+   root and slave are served on alternate ticks; this costs throughput for a bounded number of ticks and
+   touches neither the upper bounds proved here nor bounded reactivation.) *)
 Definition ex_pre : list op := [OSetRate 0 10000; OSlave; OSetRate 1 5000].
 Definition ex_ops : list op :=
   [OInsert 1 0; OTick 1000000; OTick 1000000; OTick 1000000; OTick 1000000; OConsume 1 0 3000; OSetRate 0 20000; OTick 1000000].
